@@ -38,16 +38,22 @@ func wgGen(args []string) error {
 
 func randomModel(rng *rand.Rand, maxTypes, maxRels int) *AbsModel {
 	users := []string{"user", "emp", "bot", "app", "svc"}[:2+rng.Intn(4)]
+	// "public" models (1 in 8): seven user types, direct assignments list many public restrictions and usersets, unions only:
+	// wildcard lists of three and more entries are merged into several parents (where list storage, not only the set, matters)
+	public := rng.Intn(8) == 0
+	if public {
+		users = []string{"user", "emp", "bot", "app", "svc", "dev", "ops"}
+	}
 	objs := []string{"doc", "fld", "grp", "org"}[:1+rng.Intn(maxTypes)]
 	relNames := []string{"a", "b", "c", "d", "e", "f"}
 	relsOf := map[string][]string{}
 	for _, o := range objs {
 		relsOf[o] = append([]string{}, relNames[:2+rng.Intn(maxRels-1)]...)
 	}
-	wild := rng.Intn(3) == 0 // "wild" models reference anything anywhere (mostly rejected); tame ones are biased towards acceptance
+	wild := !public && rng.Intn(3) == 0 // "wild" models reference anything anywhere (mostly rejected); tame ones are biased towards acceptance
 	// "cyclic" models: unions only, every direct assignment lists usersets of arbitrary relations and tuple-to-usersets abound,
 	// so that several tuple cycles interlock (accepted, weights Infinite): the cycle-resolution code is where map orders matter
-	cyclic := !wild && rng.Intn(3) == 0
+	cyclic := public || (!wild && rng.Intn(3) == 0)
 	conds := []string{"", "", "", "c1", "c2"}
 	m := &AbsModel{Types: []AbsType{}}
 	pick := func(xs []string) string { return xs[rng.Intn(len(xs))] }
@@ -120,6 +126,10 @@ func randomModel(rng *rand.Rand, maxTypes, maxRels int) *AbsModel {
 						if ri > 0 && rng.Intn(2) == 0 {
 							return &AbsTree{K: "cu", Rel: relsOf[o][rng.Intn(ri)]}
 						}
+						// several tuple-to-userset operands over the one tupleset `p` under one AND / BUT NOT
+						if len(common) > 0 && rng.Intn(4) == 0 {
+							return &AbsTree{K: "ttu", Rel: pick(common), Ts: "p"}
+						}
 						usedThis = true
 						return &AbsTree{K: "this"}
 					}
@@ -142,12 +152,20 @@ func randomModel(rng *rand.Rand, maxTypes, maxRels int) *AbsModel {
 					return &AbsTree{K: "diff", Ch: []*AbsTree{tree(depth-1, true), tree(depth-1, true)}}
 				}
 			}
-			rw := tree(2, false)
+			// one relation in four nests operators three deep (operators of one kind at the same depth under different parents)
+			rw := tree(2+(rng.Intn(4)+1)/4, false)
 			restr := []AbsRestr{}
 			if usedThis {
 				k := 1 + rng.Intn(4)
+				if public {
+					k = 2 + rng.Intn(5)
+				}
 				for j := 0; j < k; j++ {
-					switch x := rng.Intn(10); {
+					x := rng.Intn(10)
+					if public && x < 4 {
+						x = 4 + rng.Intn(6)
+					}
+					switch {
 					case x < 4 && !(cyclic && j > 0):
 						restr = append(restr, AbsRestr{T: users[rng.Intn(1+rng.Intn(len(users)))], Kind: "type", Cond: pick(conds)})
 					case x < 7:
